@@ -561,6 +561,51 @@ def _r06_4(run: Run, res: Resolver) -> None:
 
 
 # ------------------------------------------------------------------ R06.5
+def _r06_5_literal(run: Run, m, fi) -> bool:
+    """the same priority order written as one ordered list literal that is returned as it is or through an order-preserving
+    filter: `candidates = [a, b, c]; return [c for c in candidates if c.exists()]`"""
+    rets = [n for n in walk_no_nested(fi.node) if isinstance(n, ast.Return) and n.value is not None]
+    if len(rets) != 1:
+        return False
+    v = rets[0].value
+    if isinstance(v, ast.ListComp):
+        if len(v.generators) != 1 or not isinstance(v.generators[0].target, ast.Name) or not (isinstance(v.elt, ast.Name) and v.elt.id == v.generators[0].target.id):
+            return False
+        v = v.generators[0].iter
+    listname = None
+    if isinstance(v, ast.Name):
+        listname = v.id
+        defs = [n.value for n in walk_no_nested(fi.node) if isinstance(n, (ast.Assign, ast.AnnAssign)) and any(isinstance(t, ast.Name) and t.id == listname for t in (n.targets if isinstance(n, ast.Assign) else [n.target]))]
+        if len(defs) != 1:
+            return False
+        v = defs[0]
+    if not isinstance(v, (ast.List, ast.Tuple)) or not v.elts:
+        return False
+    reorder = [n for n in walk_no_nested(fi.node) if isinstance(n, ast.Call) and ((isinstance(n.func, ast.Attribute) and n.func.attr in ("sort", "reverse", "insert", "pop", "remove", "append", "extend") and isinstance(n.func.value, ast.Name) and n.func.value.id == listname) or (isinstance(n.func, ast.Name) and n.func.id in ("sorted", "reversed", "set", "frozenset")))]
+    run.instance("R06.5", f"{m.relpath}:{fi.node.lineno}", "get_schema_search_paths: returns its ordered candidate list as written (at most filtered in place; no sort/set/reverse)", ok=not reorder)
+    if reorder:
+        run.violation("R06.5", m, fi.qualname, reorder[0], "the schema search paths are reordered after being collected: priority (packaged before cwd-relative) then depends on path spelling, i.e. on where the process was started")
+
+    def origin(e: ast.AST) -> str:
+        srcs = set()
+        texts = [ast.unparse(e)]
+        for nm in {x.id for x in ast.walk(e) if isinstance(x, ast.Name)}:
+            texts += [ast.unparse(n.value) for n in walk_no_nested(fi.node) if isinstance(n, ast.Assign) and any(isinstance(t, ast.Name) and t.id == nm for t in n.targets)]
+        for txt in texts:
+            if "__file__" in txt:
+                srcs.add("package")
+            if "cwd" in txt or "environ" in txt or "home" in txt:
+                srcs.add("ambient")
+        return "+".join(sorted(srcs)) or "unknown"
+
+    origins = [origin(e) for e in v.elts]
+    ok = origins[0] == "package" and "unknown" not in origins
+    run.instance("R06.5", f"{m.relpath}:{fi.node.lineno}", f"get_schema_search_paths: candidate order by origin = {origins}", ok=ok)
+    if not ok:
+        run.violation("R06.5", m, fi.qualname, v.elts[0], f"the schema search order does not start with the packaged directory (origins in order: {origins}): a schema file in the working directory could shadow the packaged schema of the same name")
+    return True
+
+
 def _r06_5(run: Run, res: Resolver) -> None:
     m = run.project.mod("schemas.loader")
     fi = m.func("get_schema_search_paths")
@@ -570,6 +615,8 @@ def _r06_5(run: Run, res: Resolver) -> None:
             appends.append(n)
     appends.sort(key=lambda n: (n.lineno, n.col_offset))
     if not appends:
+        if _r06_5_literal(run, m, fi):
+            return
         raise AnalysisError("get_schema_search_paths: no append found")
 
     def origin(call: ast.Call) -> str:
